@@ -36,7 +36,10 @@ fn key(n: Ndt) -> (i64, u32, u32) {
 pub fn utc() -> BoxedStrategy<Ndt> {
     let near_end = (0i64..3, any::<bool>(), tod()).prop_map(|(d, hi, t)| Ndt { day: if hi { cal::max_day() - d } else { cal::min_day() + d }, secs: t.secs, frac: t.frac % 1_000_000_000 });
     let near_midnight = (gen::day(), 0u32..7200, any::<bool>(), 0u32..1_000_000_000).prop_map(|(day, s, late, frac)| Ndt { day, secs: if late { 86_399 - s } else { s }, frac });
-    prop_oneof![3 => gen::ndt(), 3 => near_end, 2 => near_midnight].boxed()
+    // leap-second readings (a UTC leap second sits on second :59; seen through an offset with seconds
+    // the wall clock shows it on another second)
+    let leap = (gen::day(), 0u32..1440, 1_000_000_000u32..2_000_000_000).prop_map(|(day, m, frac)| Ndt { day: day.clamp(cal::min_day() + 1, cal::max_day() - 1), secs: m * 60 + 59, frac });
+    prop_oneof![3 => gen::ndt(), 3 => near_end, 2 => near_midnight, 1 => leap].boxed()
 }
 
 fn classify(u: Ndt, off: i32, obs: &mut Obs) -> Ndt {
@@ -306,6 +309,15 @@ impl SubCheck for Edit {
             }
         };
         let what = format!("op {} arg {} on wall {}T{}{}", c.op, v, rfmt::date(w.day), rfmt::time(w.secs, w.frac), rfmt::offset(c.off));
+        // a leap-second reading on the very last second of the supported range compares greater than
+        // MAX_UTC but is a constructible value; the tree is not consistent about it (map_local filters
+        // it, month stepping does not) and the statement does not speak of it: no-panic only
+        if let Some(nu) = new_u {
+            if nu.day == cal::max_day() && nu.secs == 86_399 && nu.frac >= 1_000_000_000 {
+                obs.label("leap_reading_on_last_second_of_range_not_judged");
+                return Ok(());
+            }
+        }
         match got {
             Some(r) => {
                 // never a value beyond MIN_UTC/MAX_UTC
